@@ -19,6 +19,7 @@ panics are inputs, shown to become errors); see checks/C05.json.
 -/
 import Kap.Proofs.C05
 import Kap.Proofs.C05Udf
+import Kap.Proofs.C05Rr
 import Kap.Proofs.C05Bnd
 import Kap.Proofs.C05Term
 import Kap.Proofs.C05Part
@@ -557,6 +558,74 @@ theorem oldUdfWrite_traps : (udfWrite false [.int, .dur, .int]).2 = .trap := by 
 /-- No explicit `panic(` is left anywhere in udf/server.go and udf/agent/io.go (extracted call sites);
 the driver uses this fact to choose the repaired writer model. -/
 theorem udf_has_no_explicit_panic : Gen.udfPanicSites = [] := by decide
+
+/-! ### The UDF peer: answers to Info / Init / Snapshot / Restore, asked for or not
+
+`Info()`, `Init()`, `Snapshot()`, `Restore()` assert the type of the response they are handed WITHOUT a check:
+a response of another kind is a run-time panic in the calling goroutine - for `Snapshot()` the task's
+snapshotter, which has no recover (the process dies). What keeps a peer from causing that is only the
+routing: one one-slot channel per kind. -/
+
+section Pairing
+open Kap.C05.Rr
+
+/-- The routing the SOURCE has now (extracted on every run). -/
+def srcRouting : Routing := Routing.ofLists Gen.udfRoute Gen.udfReads Gen.udfAsserts
+
+/-- **udf_response_reaches_only_its_own_request**: with one channel per kind, for EVERY interleaving of
+peer messages (well-formed responses of any kind, asked for or not, in any number and order, keepalives,
+messages that abort the server) with calls of Info / Init / Snapshot / Restore, no call ever meets a response of
+another kind: none panics, and every response that is delivered is delivered to a request of its own kind. -/
+theorem udf_response_reaches_only_its_own_request (R : Routing) (h : R.perKind = true) (steps : List Rr.Step) :
+    ∀ kr ∈ (run R steps).1, (∀ j, kr.2 ≠ .trap j) ∧ (∀ j tag, kr.2 = .got j tag → j = kr.1) := by
+  intro kr hkr
+  have := run_ok h steps kr hkr
+  constructor
+  · intro j e; rw [e] at this; exact this
+  · intro j tag e; rw [e] at this; exact this
+
+/-- The source routes per kind: every response kind has its own one-slot channel, every request reads the
+channel of its kind and asserts its kind; the extractor recognised every shape. (A shared channel, a
+swapped channel, another buffer size or an unrecognised shape breaks this theorem.) -/
+theorem udf_routing_is_per_kind :
+    wellFormed Gen.udfRoute Gen.udfReads Gen.udfAsserts Gen.udfChans Gen.udfRrOdd = true ∧
+    srcRouting.perKind = true := by decide
+
+/-- Hence, for the code as it is: whatever a UDF peer sends and whenever the daemon asks, no goroutine of the
+daemon panics on an answer. -/
+theorem udf_request_never_panics (steps : List Rr.Step) :
+    ∀ kr ∈ (run srcRouting steps).1, ∀ j, kr.2 ≠ .trap j :=
+  fun kr hkr => (udf_response_reaches_only_its_own_request srcRouting udf_routing_is_per_kind.2 steps kr hkr).1
+
+/-- Non-vacuity: an unsolicited restore response right after the init answer is parked in ITS channel; the
+snapshot request gets the snapshot answer, a later restore request gets the stale restore response. -/
+example : run srcRouting [.req .init, .send .init 1, .send .restore 2, .wait .init, .req .snapshot, .send .snapshot 3,
+      .wait .snapshot, .req .restore, .wait .restore] =
+    ([(.init, .got .init 1), (.snapshot, .got .snapshot 3), (.restore, .got .restore 2)], false) := by decide
+
+/-- a second unsolicited response of a kind whose slot is taken is dropped; a request nobody answers is released
+by the abort at the end -/
+example : run srcRouting [.send .info 1, .send .info 2, .req .info, .wait .info, .req .info, .wait .info] =
+    ([(.info, .got .info 1), (.info, .blocked), (.info, .abort)], false) := by decide
+
+/-- One channel for all four kinds ("a request blocks its caller until it is answered, so one slot is
+enough"). -/
+def foldedRouting : Routing := { route := fun _ => 0, reads := fun _ => 0, asserts := fun k => k }
+
+/-- Counterexample: with a shared channel ONE well-formed response nobody asked for is handed to the next
+request of another kind, whose type assertion panics (in `Snapshot()`: the snapshotter goroutine, the
+process dies). So `perKind` is needed. -/
+theorem folded_channels_trap :
+    foldedRouting.perKind = false ∧
+    run foldedRouting [.req .init, .send .init 1, .wait .init, .send .restore 2, .req .snapshot, .wait .snapshot] =
+      ([(.init, .got .init 1), (.snapshot, .trap .restore)], false) := by decide
+
+/-- … and so is the agreement between the channel a request reads and the type it asserts. -/
+theorem swapped_assert_traps :
+    run { srcRouting with asserts := fun k => if k = .snapshot then .restore else k }
+      [.req .snapshot, .send .snapshot 1, .wait .snapshot] = ([(.snapshot, .trap .snapshot)], false) := by decide
+
+end Pairing
 
 /-! ### Slice expressions of the builtin functions (data-dependent indexes) -/
 
